@@ -97,7 +97,7 @@ def pmap(fn, cases, kw=None, nproc=None, chunks=1, budget_s=None):
 
 
 SUM_KEYS = ("paths", "queries", "unknown", "obligations", "discharged", "inconclusive", "unwinding_assumptions",
-            "concretisations", "hash_calls", "witness_paths", "solver_s", "unsupported", "failed")
+            "concretisations", "hash_calls", "witness_paths", "concrete_twins", "solver_s", "unsupported", "failed")
 
 
 class Check:
@@ -243,6 +243,7 @@ class Check:
             symbolic_hash_calls=self.tot["hash_calls"],
             reachability_twin_ok=twin_ok,
             witness_paths=self.tot["witness_paths"],
+            concrete_witness_twins=self.tot["concrete_twins"],
             rejected_inputs=self.rejected,
             skipped_for_time=self.skipped,
             harness_errors=len(self.errors),
